@@ -456,7 +456,7 @@ Proof.
   match goal with |- context [sett s t ?x <| current := Some t |>] =>
     set (s1 := sett s t x <| current := Some t |>) end.
   assert (H1 : grow s s1) by (apply grow_same; try reflexivity; apply length_tasks_sett).
-  match goal with |- grow s (let '(s2, o) := ?p in _) => assert (HP : G s1 (fst p)); [|destruct p as [s2 o]] end.
+  match goal with |- grow s (let '(s2, o) := ?p in _) => assert (HP : G s1 (fst p)); [|destruct p as [sx ox]] end.
   { destruct (tcont_ (gett s t)) as [c|frs k|y frs k| |].
     - destruct (if tmustc (gett s t) then _ else exc); [apply G_refl|].
       destruct (exec t c s1) as [s2 o] eqn:E. cbn [fst]. eapply G_exec; [exact E|apply G_refl].
@@ -485,10 +485,8 @@ Qed.
 
 Lemma grow_run_callback c s : grow s (run_callback c s).
 Proof.
-  destruct c; cbn [run_callback]; try apply grow_step_task; try apply grow_wakeup;
+  destruct c as [t e|t f|t p|n|f v|b| |t]; cbn [run_callback]; try apply grow_step_task; try apply grow_wakeup;
     try (apply G_grow; ggo; apply G_refl).
-  - destruct (task_reinsert s t p) as [s1 r] eqn:E. apply G_grow.
-    pose proof (G_task_reinsert _ _ _ _ _ _ E (G_refl s)). destruct r; ggo.
   - destruct (new_task s KC None (interruptor_body b)) as [s1 t1] eqn:E. apply G_grow.
     eapply G_new_task; [exact E|apply G_refl].
   - destruct (cancel_task s t) as [s1 ok] eqn:E. apply G_grow. eapply G_cancel_task; [exact E|apply G_refl].
